@@ -57,7 +57,7 @@ def default_cfg(mode, ver, **kw):
     c = dict(mode=mode, ver=tuple(ver), bs=16, mds=20, mbs=64, tag=16, nonce_len=12,
              enc_key=bytes(range(1, 17)), mac_key=bytes(range(7, 27)), iv=bytes(range(100, 116)),
              fixed_nonce=b'\x0a\x0b\x0c\x0d', fixed_iv=bytes(range(50, 66)), send_limit=2 ** 14, recv_limit=2 ** 14,
-             pad=None, seq=0)
+             pad=None, seq=0, plain_alert=True)
     if mode in ('aead-chacha', 'tls13'):
         c['fixed_nonce'] = bytes(range(200, 212))
     c.update(kw)
@@ -144,6 +144,7 @@ def make_rl(c, role, seq=None, iv=None):
     else:
         rl._readState = st
         rl.recv_record_limit = c['recv_limit']
+        rl.allow_plaintext_alert = c.get('plain_alert', True)
     return rl, sock, st
 
 
@@ -207,11 +208,11 @@ def cfg_lit(c):
     b = vlib.boollit
     return ('{| c_ver := (%d,%d); c_tls13 := %s; c_has_enc := %s; c_has_mac := %s; c_block := %s; c_aead := %s; '
             'c_etm := %s; c_bs := %d; c_aes := %s; c_chacha := %s; c_tag := %d; c_nonce_len := %d; '
-            'c_fixed_nonce := %s; c_fixed_iv := %s; c_send_limit := %s; c_recv_limit := %s; c_pad_cb := %s |}' % (
+            'c_fixed_nonce := %s; c_fixed_iv := %s; c_send_limit := %s; c_recv_limit := %s; c_pad_cb := %s; c_plain_alert := %s |}' % (
                 c['ver'][0], c['ver'][1], b(f['tls13']), b(f['has_enc']), b(f['has_mac']), b(f['block']), b(f['aead']),
                 b(f['etm']), c['bs'], b(f['aes']), b(f['chacha']), c['tag'], c['nonce_len'],
                 blit(c['fixed_nonce']) if f['aead'] else '[]', blit(c['fixed_iv']), zlit(c['send_limit']),
-                zlit(c['recv_limit']), pad_lit(c['pad'])))
+                zlit(c['recv_limit']), pad_lit(c['pad']), b(c.get('plain_alert', True))))
 
 
 def prim_lit(c):
